@@ -1,4 +1,5 @@
 import HdModel.Lemmas.PoolFrame
+import HdModel.Lemmas.PoolQueued
 /-! # C14 — a waiting request takes a freed connection; its own dial is not wasted
 
 Step-level theorems about the pool model, valid in **every** state (reachable or not), hence for
@@ -153,5 +154,49 @@ theorem C14_discard (s : State) (r : ReqId) (c : Checkout)
     · unfold dropPooled; split <;> simp [spawn, h1]
     · simp [h1]
     · simp [h1]
+
+/-! ## Reachable-state theorems (from the invariant of `Lemmas/PoolQueued.lean`) -/
+
+/-- **C14 (whoever is listening is queued), over all reachable states.** A checkout whose channel is
+    still empty – it waits for its own dial, or for somebody else's – is in the waiter queue of its own
+    origin, which is the queue `push` walks. -/
+theorem C14_listener_is_queued (cfg : Config) (ops : List Op) (r : ReqId) (c : Checkout)
+    (hco : (run (init cfg) ops).1.co r = some c) (hch : (run (init cfg) ops).1.chan r = .empty) :
+    r ∈ (run (init cfg) ops).1.waiting c.token :=
+  run_queued ops (init cfg) (queued_init cfg) r c hco hch
+
+/-- **C14 (a released connection goes to a listener, not to the idle list), over all reachable
+    states.** If any request for the origin is listening when a non-shareable connection is released for
+    it, the connection is put into the channel of a queued, listening request of that origin – the
+    first one in queue order, `pushLoop_first_live` – and the idle list is left as it was; that request
+    then has it at its next poll, whatever its own dial is doing (`C14_preempt`). -/
+theorem C14_release_serves_a_listener (cfg : Config) (ops : List Op) (r : ReqId) (c : Checkout) (cid : ConnId)
+    (hco : (run (init cfg) ops).1.co r = some c) (hch : (run (init cfg) ops).1.chan r = .empty)
+    (hns : canShare (run (init cfg) ops).1 cid = false) :
+    (∃ x, x ∈ (run (init cfg) ops).1.waiting c.token ∧
+      (push (run (init cfg) ops).1 c.token cid).chan x = .full ⟨cid, c.token, true⟩) ∧
+    (push (run (init cfg) ops).1 c.token cid).idle = (run (init cfg) ops).1.idle := by
+  have hq := C14_listener_is_queued cfg ops r c hco hch
+  generalize (run (init cfg) ops).1 = s at hco hch hns hq ⊢
+  have hcm : clearMarker s c.token cid = s := by unfold clearMarker; simp [hns]
+  obtain ⟨hd, x, hx, hfull⟩ := pushLoop_delivers c.token cid (s.waiting c.token) s hns ⟨r, hq, hch⟩
+  have hidle := (pushLoop_idle s c.token cid (s.waiting c.token)).1
+  unfold push
+  simp only [hcm]
+  generalize pushLoop s c.token cid (s.waiting c.token) = pl at hd hfull hidle
+  obtain ⟨s1, d⟩ := pl
+  simp only [] at hd hfull hidle ⊢
+  subst hd
+  simp only [↓reduceIte]
+  exact ⟨⟨x, hx, hfull⟩, hidle⟩
+
+/-- Non-vacuity: two requests dialing for one origin, a third one's connection is released: the first
+    listener has it, nothing is idle, and its next poll returns it. -/
+example :
+    let ops : List Op := [.issue 0 3 false, .poll 0, .dialDone 0 (.ok .asRequested), .poll 0,
+                          .issue 1 3 false, .poll 1, .issue 2 3 false, .poll 2, .finish 0, .connReady 0, .run, .poll 1]
+    let res := run (init {}) ops
+    res.2.getLast? = some (.got 0 false) ∧ res.1.idle 1 = [] := by
+  decide
 
 end Hd.Pool
